@@ -2931,6 +2931,67 @@ def _for_over_genexp(fn):
     return False
 
 
+def _head_tail_destructure(fn):
+    """t = tuple(E) | list(E) | E ; uses only t[0] .. t[n-1] and t[n:] (the slice only as a starred argument / loop iterable)     ->   t__0, .., *t__rest = E"""
+    info = _FnInfo(fn)
+    for asg in [n for n in ast.walk(fn) if isinstance(n, ast.Assign)]:
+        if len(asg.targets) != 1 or not isinstance(asg.targets[0], ast.Name):
+            continue
+        name, val = asg.targets[0].id, asg.value
+        if not (isinstance(val, ast.Call) and isinstance(val.func, ast.Name) and val.func.id in ('tuple', 'list') and len(val.args) == 1 and not val.keywords
+                and isinstance(val.args[0], ast.Call)):
+            continue
+        if not info.single(name) or info.order.get(id(asg)) is None:
+            continue
+        occ = [n for n in ast.walk(fn) if isinstance(n, ast.Name) and n.id == name and n is not asg.targets[0]]
+        if not occ or (info.loops.get(id(asg), True) and not _later_in_same_block(fn, asg, occ)):
+            continue
+        idx, tail, ok = {}, {}, True
+        for o in occ:
+            par = info.parents.get(id(o))
+            if not (isinstance(par, ast.Subscript) and par.value is o and isinstance(par.ctx, ast.Load)):
+                ok = False
+                break
+            k = _const_key(par.slice)
+            if k is not None and k[0] == 'int' and k[1] >= 0:
+                idx[id(par)] = k[1]
+            elif isinstance(par.slice, ast.Slice) and par.slice.upper is None and par.slice.step is None and par.slice.lower is not None \
+                    and (_const_key(par.slice.lower) or ('', 0))[0] == 'int' and _const_key(par.slice.lower)[1] >= 0:
+                gp = info.parents.get(id(par))
+                if not (isinstance(gp, ast.Starred) or (isinstance(gp, (ast.For, ast.comprehension)) and gp.iter is par)):
+                    ok = False
+                    break
+                tail[id(par)] = _const_key(par.slice.lower)[1]
+            else:
+                ok = False
+                break
+        if not ok or len(set(tail.values())) > 1:
+            continue
+        n_head = list(tail.values())[0] if tail else (max(idx.values()) + 1 if idx else 0)
+        if not tail:
+            continue            # without the slice the length of E is unknown: t[0], t[1] alone do not fix it
+        if any(k >= n_head for k in idx.values()):
+            continue
+        existing = {n.id for n in ast.walk(fn) if isinstance(n, ast.Name)} | info.params
+        names = ['%s__%d' % (name, i) for i in range(n_head)] + ['%s__rest' % name]
+        if any(x in existing for x in names):
+            continue
+
+        class Rp(ast.NodeTransformer):
+            def visit_Subscript(self, n):
+                if id(n) in idx:
+                    return ast.copy_location(ast.Name(id=names[idx[id(n)]], ctx=ast.Load()), n)
+                if id(n) in tail:
+                    return ast.copy_location(ast.Name(id=names[-1], ctx=ast.Load()), n)
+                return self.generic_visit(n)
+        Rp().visit(fn)
+        asg.targets = [ast.Tuple(elts=[ast.Name(id=x, ctx=ast.Store()) for x in names[:-1]] + [ast.Starred(value=ast.Name(id=names[-1], ctx=ast.Store()), ctx=ast.Store())], ctx=ast.Store())]
+        asg.value = val.args[0]
+        ast.fix_missing_locations(fn)
+        return True
+    return False
+
+
 def _forward_temps(fn):
     """t = E ; TARGET = t      ->  TARGET = E        (adjacent statements; t bound once and read once - by that copy; TARGET may be a global, an
     attribute or a subscript whose own sub-expressions are effect free)"""
@@ -3075,6 +3136,8 @@ def simplify_function(fn, ctx, inliner, cls):
         elif _coalesce_copies(fn):
             changed = True
         elif _forward_temps(fn):
+            changed = True
+        elif _head_tail_destructure(fn):
             changed = True
         elif _adjacent_copies(fn):
             changed = True
